@@ -168,6 +168,12 @@ def run(ctx):
         def mid_render(sim):
             from ..engines.b_builders import Actor, ModuleCtl
             if any((isinstance(a, Actor) and not a.closed) or (not isinstance(a, (Actor, ModuleCtl)) and not a.closed) for a in sim.actors):
+                if ch.coin(1, 10, "render-incomplete"):
+                    try:
+                        sim.hugr.render_dot()
+                        ctx.probe("rendered_incomplete_hugr")
+                    except Exception:  # noqa: BLE001
+                        ctx.fault("rendering_of_incomplete_hugr_failed")
                 return
             if len(sim.hugr) > 3 and ch.coin(1, 6, "mid-history-render"):
                 try:
